@@ -27,7 +27,7 @@ VERIF = os.path.dirname(os.path.dirname(os.path.abspath(__file__)))
 REPO = os.environ.get('VERIF_REPO', '/repo')
 COQ = os.path.join(VERIF, 'coq')
 COQ_LOGICAL = 'LV'
-NCPU = os.cpu_count() or 4
+NCPU = int(os.environ.get("VERIF_NCPU") or os.cpu_count() or 4)
 
 FORBIDDEN = re.compile(
     r'\b(Admitted|admit|Axiom|Axioms|Parameter|Parameters|Conjecture|Conjectures|'
